@@ -116,8 +116,24 @@ def param_wf(pc: PCtx, wf: dict, nonneg: bool):
                 out[f] = pc.float_expr(float(wf[f]), nonneg)
         if _num(wf.get("d")) and pc.maybe():
             out["d"] = pc.int_expr(int(wf["d"]))
-    elif k == "interp" and pc.maybe():
-        out["values"] = {"var": pc.new_var("float", list(map(float, wf["values"])), size=len(wf["values"]))}
+    elif k == "interp" and (pc.maybe() or pc.maybe()):
+        vals = list(map(float, wf["values"]))
+        n = len(vals)
+        if pc.draw(st.booleans()):
+            out["values"] = {"var": pc.new_var("float", vals, size=n)}
+        else:
+            # the values are a (strided / reversed / offset) slice of a longer variable
+            cands = []
+            for sl in ([None, None, 2], [None, None, -1], [None, None, -2], [1, None, 2], [1, None, 3],
+                       [None, None, 3], [1, -1, 1], [0, n, 1]):
+                for m in range(n, 3 * n + 4):
+                    if len(range(m)[slice(*sl)]) == n:
+                        cands.append((sl, m))
+            sl, m = pc.draw(st.sampled_from(cands))
+            full = [0.125] * m
+            for pos, v in zip(range(m)[slice(*sl)], vals):
+                full[pos] = v
+            out["values"] = {"var": pc.new_var("float", full, size=m), "slice": sl}
     elif k == "custom" and pc.custom_var and len(wf["samples"]) <= 8 and pc.maybe():
         out["samples"] = {"var": pc.new_var("float", list(map(float, wf["samples"])), size=len(wf["samples"]))}
     elif k == "composite":
